@@ -139,8 +139,9 @@ fn particle(voc: &Vocab, p: &Value, ind: usize, out: &mut String) {
     match s(p, "k") {
         Some("el") => {
             let ty = p.get("ty").filter(|t| t.get("k").is_some()).map_or(String::new(), |t| format!(" type=\"{}\"", xml_esc(&qname(voc, t))));
+            let form = s(p, "form").map_or(String::new(), |f| format!(" form=\"{f}\""));
             out.push_str(&format!(
-                "{pad}<xs:element name=\"{}\"{ty}{}/>\n",
+                "{pad}<xs:element name=\"{}\"{ty}{}{form}/>\n",
                 xml_esc(&voc.name_xml(s(p, "n").unwrap_or(""))),
                 occ(p)
             ));
